@@ -66,7 +66,9 @@ theorem i4c_notifyEvent_pub (j : Job) (c c' : Ctl) (ev : Event) (h0 : Host) (ds0
         have e5 := completeInputs_outputs _ _ _ _ _ hc2
         have e6 := completeInputs_doneC _ _ _ _ _ hc2
         have e7 := completeInputs_ongoing _ _ _ _ _ hc2
-        simp only [considerComputable_hostDs, considerFetch_hostDs, considerComputable_dsHost, considerFetch_dsHost,
+        simp only [markPublished_hostDs, markPublished_dsHost, markPublished_announced, markPublished_workerDs,
+          markPublished_outputs, markPublished_doneC, markPublished_ongoing,
+          considerComputable_hostDs, considerFetch_hostDs, considerComputable_dsHost, considerFetch_dsHost,
           considerComputable_announced, considerFetch_announced, considerComputable_workerDs, considerFetch_workerDs,
           markAvailable_workerDs, considerComputable_outputs, considerFetch_outputs, markAvailable_outputs,
           considerComputable_doneC, considerFetch_doneC, markAvailable_doneC,
